@@ -3,7 +3,7 @@
 # Confirms in the scratch worktree /tmp/seed/<Cxx>: patch == worktree diff, existing suite green with the patch,
 # demo fails with the patch and passes without. Writes /tmp/seed-out/<Cxx>/confirm.log
 id="$1"; crate="$2"; demo="$3"
-wt=/tmp/seed/$id; out=/tmp/seed-out/$id
+wt=${SEED_ROOT:-/tmp/seed}/$id; out=${SEED_OUT:-/tmp/seed-out}/$id
 export CARGO_NET_OFFLINE=true
 cd $wt || exit 2
 {
